@@ -18,7 +18,8 @@ CONSTANTS
   Paces = {"burst"}
   DevSpin = TRUE
   DevNoUnblock = TRUE
+  DevAliasFlush = FALSE
 SPECIFICATION USpec
-INVARIANTS UTypeOK UDatagrams UComplete UCompleteAny UEncoded UFlushed UBuf
+INVARIANTS UTypeOK UDatagrams UComplete UCompleteAny UEncoded UFlushed UMutex UBuf
 PROPERTIES UDelivMonotone UEventuallyFlushed UTerminationExcused
 CHECK_DEADLOCK FALSE
